@@ -668,6 +668,18 @@ class Evaluator:
                     st.env[nm] = ("dict", cur[1] + (a[1] if a[0] == "dict" else ((None, a),)))
             yield st, None
         elif isinstance(s, ast.Assign):
+            # x = x OP y and x[i] = x[i] OP y are accumulations like x OP= y: the same "aug" event is recorded (marked: a name is
+            # re-bound, nothing is written in place), so that rules about sums see one form
+            if len(s.targets) == 1 and isinstance(s.value, ast.BinOp) and isinstance(s.targets[0], (ast.Name, ast.Subscript)) and type(s.value.op) in BIN \
+                    and ast.dump(_as_load(s.targets[0])) == ast.dump(_as_load(s.value.left)) and not (isinstance(s.targets[0], ast.Name) and s.targets[0].id not in st.env):
+                cur = self.ev(s.value.left, st)
+                val = self.ev(s.value.right, st)
+                new = fold_bin(BIN[type(s.value.op)], cur, val)
+                self.emit(st, "aug", (cur, BIN[type(s.value.op)], val, new, "rebind" if isinstance(s.targets[0], ast.Name) else "store"), s)
+                if isinstance(s.targets[0], ast.Name):
+                    st.env[s.targets[0].id] = new         # exactly what `x OP= y` records
+                yield st, None
+                return
             v = self.ev(s.value, st)
             for t in s.targets:
                 self.bind(t, v, st, s)
